@@ -8,10 +8,10 @@ import (
 
 // ---- listener pass "mini": E3 (leak, kill, bracket), E6 (override / orphan), E2 (grammar-typed navigation)
 
-var seenNames []string // killed at entry: ok
+var seenNames []string               // killed at entry: ok
 var leakyTable = map[string]string{} // never re-made: leaky
-var inItem = false // bracketed by Enter/ExitItem: ok
-var stuck = false  // set in EnterOpt, reset nowhere after it: not bracketed
+var inItem = false                   // bracketed by Enter/ExitItem: ok
+var stuck = false                    // set in EnterOpt, reset nowhere after it: not bracketed
 
 type MiniListener struct {
 	parser.BaseMiniListener
